@@ -24,11 +24,15 @@ Norm(x) == IF x.f = "L" THEN [f |-> "L", e |-> [i \in 1..Len(x.e) |->
            ELSE IF x.f = "A" THEN (IF "var" \in DOMAIN x THEN [f |-> "A", var |-> x.var, lo |-> Bound(x.lo), hi |-> Bound(x.hi)]
                                    ELSE [f |-> "A", s |-> x.s])
            ELSE [f |-> x.f, e |-> [i \in 1..Len(x.e) |-> NormEl(x.e[i])]]
+\* A template may hold names of the very shape the expansion generates (x next to x[0]). Where the documented
+\* expansion would then give one name twice, the only way to keep the names unique is to refuse.
 PropC10(e) == e.ev = "ell" =>
-  LET t == e.tmpl.abs IN
+  LET t == e.tmpl.abs  want == Spec(t, e.cnt) IN
+  IF ~NoDup(Vars(want)) THEN e.res.outcome = "refused"
+  ELSE
   /\ e.res.outcome = "ok"
   \* the documented expansion; a single remaining ellipsis may be called ... or ...[0]
-  /\ Norm(e.res.abs) = Norm(Spec(t, e.cnt)) \/ Norm(e.res.abs) = Norm(SpecNumbered(t, e.cnt))
+  /\ Norm(e.res.abs) = Norm(want) \/ Norm(e.res.abs) = Norm(SpecNumbered(t, e.cnt))
   /\ NoDup(e.res.vars)                                                  \* all names stay unique
   /\ e.res.vars = Vars(e.res.abs)
   \* each generated name can be filled individually: exactly that name disappears
@@ -36,7 +40,7 @@ PropC10(e) == e.ev = "ell" =>
         f.ok /\ f.vars = SelectSeq(e.res.vars, LAMBDA nm : nm # f.name)
   \* TLC -> Go replay: the expansion the model computed for this case
   /\ "want" \in DOMAIN e => (Norm(e.res.abs) = Norm(e.want) \/ Norm(e.res.abs) = Norm(SpecNumbered(t, e.cnt)))
-AgreeC10(e) == e.ev = "ell" =>
+AgreeC10(e) == (e.ev = "ell" /\ e.res.outcome = "ok") =>
   LET r == Machine(e.tmpl.abs, e.cnt) IN
   /\ Norm(e.res.abs) = Norm(r.t)
   /\ e.hooks = r.log
